@@ -56,6 +56,7 @@ const (
 	StrEscaped = iota // printable ASCII raw; ( ) \ escaped; LF CR TAB as \n \r \t; the rest as \ddd
 	StrRaw            // everything raw except \ and CR (and unbalanced parentheses)
 	StrHex            // <hex>
+	StrMixedEOL       // as StrRaw, but every LF is spelled as a raw CR, LF or CR LF in turn (all read as LF), with a \<CR> line continuation after the first blank
 	strForms
 )
 
@@ -82,7 +83,8 @@ type Options struct {
 	HexBreak   int  // hex digits per line of the eexec section: 0 = 64, 1 = 63, 2 = 7, 3 = 1 (white space may stand anywhere, also inside a byte)
 	// Dense: Adobe's customary dense style (no spaces where none are needed,
 	// readonly/noaccess decorations, FontBBox as a procedure, UniqueID, extra
-	// DSC comments, OtherSubrs and StemSnap entries).
+	// DSC comments, OtherSubrs and StemSnap entries; the Subrs array has an
+	// unset element before every subroutine beyond the four standard ones).
 	Dense bool
 	// AllowReencodedSeac lifts the check that seac components sit at their
 	// StandardEncoding codes in the font's own encoding.  Such a file violates
@@ -152,7 +154,7 @@ func psString(s string, form int) string {
 		}
 		sb.WriteByte('>')
 		return sb.String()
-	case StrRaw:
+	case StrRaw, StrMixedEOL:
 		// are the parentheses balanced?
 		level, balanced := 0, true
 		for i := 0; i < len(s); i++ {
@@ -166,6 +168,7 @@ func psString(s string, form int) string {
 			}
 		}
 		balanced = balanced && level == 0
+		eols, contDone := 0, false
 		sb.WriteByte('(')
 		for i := 0; i < len(s); i++ {
 			c := s[i]
@@ -174,6 +177,16 @@ func psString(s string, form int) string {
 				sb.WriteString(`\\`)
 			case c == '\r':
 				sb.WriteString(`\r`) // a raw CR inside a string reads as LF (PLRM 3.2.2)
+			case c == '\n' && form == StrMixedEOL:
+				sp := []string{"\r", "\n", "\r\n"}[eols%3]
+				if sp == "\n" && sb.Len() > 0 && strings.HasSuffix(sb.String(), "\r") {
+					sp = "\r\n" // a bare LF directly after a CR would be taken for its second half
+				}
+				sb.WriteString(sp)
+				eols++
+			case c == ' ' && form == StrMixedEOL && !contDone:
+				sb.WriteString(" \\\r") // the blank, then a line continuation (backslash, CR): ignored by the scanner
+				contDone = true
 			case (c == '(' || c == ')') && !balanced:
 				sb.WriteByte('\\')
 				sb.WriteByte(c)
@@ -326,7 +339,7 @@ func Generate(m *t1model.Font, opt *Options) ([]byte, error) {
 	}
 
 	// ---- charstrings and subroutines ----
-	tbl := &subrTable{}
+	tbl := &subrTable{holes: opt.Dense}
 	type csEntry struct {
 		name string
 		data []byte
@@ -342,6 +355,10 @@ func Generate(m *t1model.Font, opt *Options) ([]byte, error) {
 	var subrs [][]byte
 	if tbl.needed || opt.Dense {
 		for i, s := range append(standardSubrs(), tbl.extra...) {
+			if s == nil {
+				subrs = append(subrs, nil)
+				continue
+			}
 			subrs = append(subrs, encryptCharstring(s, leadBytes(opt.LenIV, i)))
 		}
 	}
@@ -462,6 +479,9 @@ func Generate(m *t1model.Font, opt *Options) ([]byte, error) {
 		}
 		priv.line("/Subrs %d array", len(subrs))
 		for i, s := range subrs {
+			if s == nil {
+				continue // an element left unset (null)
+			}
 			fmt.Fprintf(&priv.buf, "dup %d %d %s ", i, len(s), rd)
 			priv.buf.Write(s)
 			priv.line(" %s", np)
